@@ -1,16 +1,28 @@
 '''C15 Axis reductions equal the independent per-column / per-row computation.'''
 from sfa.report import Ctx
+from sfa.rules import axisrules
+from sfa.rules import blockrules
 from sfa.rules import table
 
 LEVEL_TEXT = (
-    'Static decision of structural clauses of C15: the reduction table of ContainerOperand (12 methods): each passes the X / nanX ufunc pair of its own name, forwards axis and skipna, sets composable only for decomposable functions and size_one_unity only where f([x]) == x; the logical helpers bind np.all / np.any with the skipna flag their name states. Not decided: every numeric result, dtype pre-casting, NaN propagation.')
+    'Static decision of structural clauses of C15: (a) the reduction table of ContainerOperand (12 methods): each passes the X / nanX ufunc pair of its own name, '
+    'forwards axis and skipna, sets composable only for decomposable functions and size_one_unity only where f([x]) == x; the logical helpers bind np.all / np.any '
+    'with the skipna flag their name states; (b) per path (symbolic store): a Frame reduction along axis 0 is labelled by the columns and along axis 1 by the index '
+    '(_ufunc_axis_skipna, count, loc/iloc_min/max), loc_min/max read the labels of the reduced axis at the positions of the like-named arg-extreme over self.values '
+    'with the caller\'s axis and skipna, the arg-extreme helpers bind np.argmin/np.nanargmin (max likewise), every parameter reaches TypeBlocks.ufunc_axis_skipna under '
+    'its own name, cumulative forms keep both label sets; (c) per path of util.ufunc_axis_skipna the skipna flag selects the NaN-aware ufunc and its absence the plain '
+    'one, with the caller\'s axis and out (datetime branch excepted, as documented in the code); (d) block-layout independence: a per-block cast guarded by a test on the '
+    'block\'s dimensionality has a sibling cast on the other layout. Not decided: every numeric result, NumPy\'s own NaN propagation, overflow of composable axis-1 reductions.')
 
 CLAIM = dict(
     text=LEVEL_TEXT,
-    technique='declarative reduction-table extraction and comparison',
+    technique='per-path symbolic-store dataflow of result labels / forwarded parameters / flag-selected callee + reduction-table comparison + layout-guard sibling rule',
     design_ref='DESIGN.md section 2.G and section 3 C15',
 )
 
 
 def run(ctx: Ctx) -> None:
     table.t2_reductions(ctx)
+    axisrules.axis_labels(ctx)
+    axisrules.skipna_dispatch(ctx)
+    blockrules.layout_independent_casts(ctx)
